@@ -82,7 +82,7 @@ CLAIMS = {
             "elements; Pow, Inv, PrimInt::pow (every u32 exponent expressible as Uint), Integer::{gcd,lcm,extended_gcd} with the inherent "
             "pow/inv_ring/gcd/lcm/gcd_extended stubbed, Integer::lcm panics exactly when lcm is None. Widths {0,1,7,64,65,128,250}; "
             "PrimInt::{swap_bytes,to_be,from_be,to_le,from_le} at {8,64,72,128,256}.",
-            "Not covered: Num::from_str_radix, zeroize, swap_bytes at widths that are not a multiple of 8 (documented as not "
+            "Not covered: Num::from_str_radix, zeroize (inline assembly, unsupported by Kani), swap_bytes at widths that are not a multiple of 8 (documented as not "
             "well-defined), PrimInt::pow for exponents >= 2^BITS (panics, DESIGN 7). Rotations use amounts 0..=65535."),
     "C11": ('5/C11',
             'N = 1: mul_redc on EVERY odd modulus 3..=63 (thorough 3..=127) and square_redc on every odd modulus 3..=255, composite moduli with zero divisors included, every a, b < m: r < m and r * 2^64 = a * b (mod m); mul_redc on an 11-free-bit lattice around the carry thresholds (m = {2^62-32, 2^62, 2^63-32, 2^63, 2^64-32} + 2x+1, a, b = small or m-1-small, inv from an independent Newton iteration): the result is < m and equals (a*b + k*m)/2^64 reduced once; witnesses for the subtract-taken and extra-carry paths are required. N = 2: square_redc(a) = mul_redc(a, a) and result < m on a 14-free-bit lattice (limbs near 0, 2^62, 2^63, 2^64-1). Thorough: square_redc and Uint::{mul_redc,square_redc} on the N = 1 lattice.',
